@@ -1,7 +1,7 @@
 (* C07 Proofs: corollaries assembled from ProofsA (worker bound, conservation, variant), ProofsB (first cancel,
    result soundness, clean-run invariants) and ProofsC (stuck-freedom / termination of the clean family). *)
 From Coq Require Import Permutation.
-From God Require Import Base.Prelude C07.Model C07.ProofsA C07.ProofsB C07.ProofsC.
+From God Require Import Base.Prelude C07.Model C07.ProofsA C07.ProofsB C07.ProofsC C07.ProofsF.
 
 Lemma pending_nil_of_exited l :
   forallb w_exited l = true ->
@@ -61,46 +61,11 @@ Qed.
 (* ---- the clean family in terms of Spec.v ---- *)
 From God Require Import C07.Spec C07.ProofsE.
 
-Lemma wrote_step cf s l s' : cinv s -> step cf s l = Some s' -> wrote s = false -> wrote s' = false.
-Proof.
-  intros (_ & _ & Hw & Hg & Hr & _) H W.
-  destruct l; simpl in H; unf_step H; unfold set_w, cancel_fin in H.
-  - inv_step H; auto.
-  - destruct (g s) eqn:Eg; try discriminate Hg; inv_step H; auto.
-  - inv_step H; auto.
-  - inv_step H; auto.
-  - inv_step H; auto.
-  - inv_step H; auto.
-  - inv_step H; auto.
-  - destruct (nth_error (ws s) i) as [[it p]|] eqn:En; [|discriminate].
-    pose proof (forallb_nth _ _ _ _ Hw En) as Hp. unfold wokb in Hp. simpl in Hp.
-    destruct p; try discriminate Hp; inv_step H; auto.
-  - destruct (r s) eqn:Er; simpl in Hr; try discriminate Hr; inv_step H; auto.
-  - inv_step H; auto.
-  - inv_step H; auto.
-  - inv_step H; auto.
-  - inv_step H; auto.
-Qed.
-
-Lemma clean_run_wrote cf ls : forall s s', clean_cfg cf -> env_free ls -> reachable cf s -> cinv s ->
-  wrote s = false -> run cf s ls = Some s' -> wrote s' = false.
-Proof.
-  induction ls as [|l t IH]; simpl; intros s s' Hc He R I W H.
-  - inversion H; subst; exact W.
-  - destruct (step cf s l) as [s1|] eqn:E; [|discriminate].
-    assert (He' : env_free t) by (intro Hin; apply He; right; exact Hin).
-    assert (Hl : l <> LEnv) by (intro Hl; apply He; left; auto).
-    destruct (cinv_run cf [l] s s1 Hc) as [I1 R1]; auto.
-    { intros [Hin|[]]. apply Hl; auto. }
-    { simpl. rewrite E. reflexivity. }
-    apply (IH s1 s' Hc He' R1 I1); [|exact H]. exact (wrote_step cf s l s1 I E W).
-Qed.
-
 Lemma clean_run_clean cf ls s : clean_cfg cf -> env_free ls -> run cf (init cf) ls = Some s -> clean s.
 Proof.
   intros Hc He H. destruct (clean_run_inv cf ls s Hc He H) as [I R].
-  destruct I as (I1 & I2 & _). split; [exact I1|]. split; [exact I2|].
-  eapply (clean_run_wrote cf ls (init cf) s); eauto using reachable_init, cinv_init.
+  destruct I as (I1 & I2 & _ & _ & _ & _ & _ & _ & _ & _ & _ & _ & I13).
+  split; [exact I1|]. split; [exact I2|exact I13].
 Qed.
 
 Lemma rwrites_writes a : rwrites a = writes a.
@@ -125,4 +90,13 @@ Proof.
   - intro Hn. eapply Permutation_trans; [apply Permutation_sym; exact PW|exact (PR Hn)].
   - unfold spec_result. rewrite rwrites_writes.
     exact (clean_result cf s o R C (clean_cfg_no_rpanic cf Hc) Ho).
+Qed.
+
+(* the clean family is a sub-family of the live one *)
+Lemma clean_cfg_live cf : clean_cfg cf -> live_cfg cf.
+Proof.
+  intros (Hw & _ & _ & Hb & _ & Hl). split; [exact Hw|]. split.
+  - intros i Hin. destruct (Hb i AWaitRet Hin) as [k Hk]. discriminate.
+  - rewrite nwrites_rwrites. eapply Nat.le_trans; [|exact Hl].
+    clear. induction (rafter cf) as [|[k|p] t IH]; simpl; lia.
 Qed.
